@@ -762,7 +762,7 @@ Proof.
     destruct (mm_try_add s a o) as [[s' v]|] eqn:E.
     + destruct (mm_try_add_ok fn s a o s' v Hinv E) as (Hi' & Hs' & Hv).
       unfold mm_finish. split; auto. split; auto. split; [exact I|].
-      apply mm_res_ok_finish; auto. symmetry. apply Hv, Hpc.
+      eapply mm_res_ok_finish; eauto. symmetry. apply Hv, Hpc.
     + unfold mm_goto; mm_same; cbn; auto.
   - (* PD2 *)
     destruct (al_get (m_group s) k) as [f|] eqn:E; unfold mm_goto.
@@ -830,13 +830,13 @@ Proof.
     cbn in Hpc. destruct r as [v|].
     + destruct (al_get (m_map s) k) as [a|] eqn:E.
       * unfold mm_goto; mm_same; cbn; auto.
-      * unfold mm_finish; mm_same; cbn; auto. apply mm_res_ok_finish; auto.
-    + unfold mm_finish; mm_same; cbn; auto. apply mm_res_ok_finish; auto.
+      * unfold mm_finish; mm_same; cbn; auto. eapply mm_res_ok_finish; eauto.
+    + unfold mm_finish; mm_same; cbn; auto. eapply mm_res_ok_finish; eauto.
   - (* PP1 *)
     cbn in Hpc. destruct (mm_try_add s a o) as [[s' v]|] eqn:E.
     + destruct (mm_try_add_ok fn s a o s' v Hinv E) as (Hi' & Hs' & Hv).
-      unfold mm_finish. split; auto. split; auto. split; [exact I|]. apply mm_res_ok_finish; auto.
-    + unfold mm_finish; mm_same; cbn; auto. apply mm_res_ok_finish; auto.
+      unfold mm_finish. split; auto. split; auto. split; [exact I|]. eapply mm_res_ok_finish; eauto.
+    + unfold mm_finish; mm_same; cbn; auto. eapply mm_res_ok_finish; eauto.
   - (* PR *)
     destruct ks as [|k ks].
     + unfold mm_goto; mm_same; cbn; auto.
@@ -878,7 +878,11 @@ Qed.
 Lemma mm_sys_inv_start fn opss : mm_sys_inv fn mm_empty (map mm_start opss).
 Proof.
   split.
-  - unfold mm_inv, mm_empty; cbn. repeat split; intros; try discriminate; destruct a; discriminate || (destruct f; discriminate).
+  - unfold mm_inv, mm_empty; cbn [m_ents m_map m_flights m_group]. split; [|split; [|split]].
+    + intros k a H; discriminate.
+    + intros a e H; destruct a; discriminate.
+    + intros f x r H; destruct f; discriminate.
+    + intros k f H; discriminate.
   - intros l Hl. apply in_map_iff in Hl as (ops & <- & _). split; [exact I | intros k r c []].
 Qed.
 
@@ -977,6 +981,10 @@ Proof.
       replace (i - k) with (S (i - S k)) by lia. exact N.
 Qed.
 
+Lemma au_run_step i sch log ws x wr :
+  nth_error ws i = Some (x :: wr) -> au_run (i :: sch) (log, ws) = au_run sch (log ++ au_frame x, cset_nth ws i wr).
+Proof. intro N. unfold au_run. cbn [fold_left au_sys_step]. rewrite N. reflexivity. Qed.
+
 (* the decision procedure run on an observed log is sound: when it answers Some sch, the model
    produces exactly that log under schedule sch and every writer has finished *)
 Theorem au_explain_sound : forall fuel ws log sch,
@@ -992,8 +1000,7 @@ Proof.
     + destruct (au_take ws (b :: log) 0) as [[i rest]|] eqn:T; [|discriminate].
       apply au_take_some in T as (_ & x & wr & N & R). rewrite Nat.sub_0_r in N. rewrite N in H.
       destruct (au_explain fuel (cset_nth ws i wr) rest) as [sch'|] eqn:E; [|discriminate].
-      inversion H; subst sch. cbn [au_run fold_left au_sys_step]. rewrite N.
-      fold (au_run sch' (log0 ++ au_frame x, cset_nth ws i wr)).
+      inversion H; subst sch. rewrite (au_run_step i sch' log0 ws x wr N).
       destruct (IH _ _ _ E (log0 ++ au_frame x)) as [A B]. split; auto.
       rewrite A, R, app_assoc. reflexivity.
 Qed.
